@@ -718,6 +718,7 @@ class Cache:
     def _transact(self, retry=False, filename=None):
         sql = self._sql
         filenames = []
+        created = []
         _disk_remove = self._disk.remove
         tid = threading.get_ident()
         txn_id = self._txn_id
@@ -726,6 +727,7 @@ class Cache:
             # Nested: the outermost transaction removes the files.
             begin = False
             filenames = self._txn_filenames
+            created = self._txn_created
         else:
             while True:
                 try:
@@ -733,7 +735,7 @@ class Cache:
                     begin = True
                     self._txn_id = tid
                     self._txn_filenames = filenames
-                    self._txn_created = []
+                    self._txn_created = created
                     break
                 except sqlite3.OperationalError:
                     if retry:
@@ -743,7 +745,7 @@ class Cache:
                     raise Timeout from None
 
         if filename is not None:
-            self._txn_created.append(filename)
+            created.append(filename)
 
         try:
             yield sql, filenames.append
@@ -752,7 +754,8 @@ class Cache:
                 assert self._txn_id == tid
                 self._txn_id = None
                 sql('ROLLBACK')
-                for name in self._txn_created:
+                # Not self._txn_created: another thread may own it by now.
+                for name in created:
                     _disk_remove(name)
             raise
         else:
